@@ -1290,6 +1290,31 @@ void result_body(FILE* f) {
 
 using namespace seq;
 
+// known finding K2 (C10): mi_heap_delete of a heap whose tag differs from the backing heap's cannot hand its pages to the backing heap and abandons them although
+// the thread lives on; the blocks must stay valid and individually freeable (C10) -- a free by the same thread that empties such a page (or hits a full one) dereferences
+// the page's heap, which is NULL.  One dedicated case per run exercises exactly that.
+static void run_tagged_delete(State& S) {
+  S.sm.refutes_generic = "C10";
+  vf_crash_refutes = "C10";
+  const int tag = 1 + (int)below(S, 6);
+  mi_heap_t* h = mi_heap_new_ex(tag, false /* not destroyable */, (mi_arena_id_t)0);
+  if (h == nullptr) vf_trip("harness", "", "mi_heap_new_ex failed");
+  std::vector<vf::Blk*> bs;
+  const size_t cls = 16 + (size_t)below(S, 400);
+  const size_t cnt = 600 + (size_t)below(S, 2000);
+  for (size_t i = 0; i < cnt; i++) { void* q = mi_heap_malloc(h, cls); if (q) { vf::Blk* b = accept_block(S, q, cls, -1, 0, 0, false, EP_heap_malloc); if (b) { bs.push_back(b); S.foreign_live++; } } }
+  vf_cur_what = "mi_heap_delete of a tagged heap";
+  mi_heap_delete(h);
+  for (vf::Blk* b : bs) S.sm.verify(b, "after mi_heap_delete of a tagged heap", SIZE_MAX, "C10");
+  vf_cur_what = "free after mi_heap_delete of a tagged heap";
+  for (vf::Blk* b : bs) { S.foreign_live--; S.sm.verify(b, "before free"); void* q = b->p; S.sm.remove(b); mi_free(q); }
+  check_errors(S, "free after mi_heap_delete of a tagged heap");
+  vf_cur_what = "allocation after the frees";
+  for (int i = 0; i < 500; i++) { vf::Blk* b = do_alloc(S, EP_malloc, cls); if (b && (i & 1)) do_free(S, b); }
+  S.sm.verify_all("end");
+  free_all(S);
+}
+
 int main(int argc, char** argv) {
   static State S;
   G = &S;
@@ -1331,6 +1356,7 @@ int main(int argc, char** argv) {
   else if (p == "hardening") run_hardening(S);
   else if (p == "ledger" || p == "purge" || p == "faults") run_os_profile(S);
   else if (p == "arena") run_arena_profile(S);
+  else if (p == "tagged-delete") run_tagged_delete(S);
   else run_history(S);
   vf_finish_ok();
 }
